@@ -425,6 +425,7 @@ static void op_task(void *arg)
 		OpOut *o = &r->out[i];
 		memset(o, 0, sizeof(*o));
 		g_oo = o;
+		sim_progress();
 		o->status = g_ops[r->op].fn();
 		r->nout = i + 1;
 		sim_trace(EV_OPRES, o->status, (int64_t)(o->outhash & 0xffffff));
